@@ -462,6 +462,21 @@ def rule_epoch(tree: Tree) -> RuleResult:
     r.instances += 1
     calls = [c for c in body_walk(dp.node) if isinstance(c, ast.Call) and dotted(c.func) == "self.check_key_epoch"]
     ok = len(calls) == 1 and [src(a) for a in calls[0].args] == ["quic_packet.key_phase", "quic_packet.isserver"]
+    if ok:
+        # … *before*: every read of self.epoch_<d> in decrypt_packet (the index of the 1-RTT decryptor) is dominated by the check
+        cfgd = cfg_of(dp.node)
+        cn = cfgd.node_of(calls[0])
+        facts_c = [(src(e), t) for e, t in cfgd.facts_at(cn)]
+        ok = any(s == "quic_packet.packet_type == QuicPacketType.RTT_1" and t for s, t in facts_c) and len(facts_c) <= 2
+        for n in body_walk(dp.node):
+            if isinstance(n, ast.Attribute) and n.attr in ("epoch_server", "epoch_client") and isinstance(n.ctx, ast.Load):
+                try:
+                    rn = cfgd.node_of(n)
+                except Exception:
+                    continue
+                # reads on the long-header path are not preceded by the check (no key phase there); on the short-header path the check must come first
+                if not cfgd.paths_exist(cn, rn) and any(s.startswith("isinstance(quic_packet, ShortQuicPacket)") and t for s, t in [(src(e), t) for e, t in cfgd.facts_at(rn)]):
+                    ok = False
     r.ob(ok, Finding("EPO", f"{QS}:QuicSession.decrypt_packet:epoch-check", "every 1-RTT packet updates the epoch with its own key phase and direction before the decryptor is chosen", dp.module.line(dp.node)))
     return r
 
@@ -623,6 +638,28 @@ def rule_frame_attrs(tree: Tree) -> RuleResult:
     hc = tree.func(QS, "QuicSession.handle_crypto_frame")
     ok = ok and any(isinstance(c, ast.Call) and src(c) == "self.output_buffer.append(frame)" for c in body_walk(hc.node))
     r.ob(ok, Finding("A3f", f"{QS}:QuicSession.handle_frame:crypto-vn", "CRYPTO frames feed the TLS parser and are kept for metadata export; version-negotiation pseudo frames are kept", hf.module.line(hf.node)))
+    # attributes of the carrying packet that the builder reads exist for every packet kind (a frame's packet may be a Version Negotiation or Retry packet)
+    read = sorted({n.attr for n in body_walk(b.node) if isinstance(n, ast.Attribute) and isinstance(n.ctx, ast.Load) and (dotted(n.value) or "").endswith("src_packet")})
+    if not read:
+        raise AnchorMissing("QUICOutputbuilder.build reads no attribute of frame.src_packet")
+    qp = tree.module("quic.quic_packet")
+    for cn in ("LongQuicPacket", "ShortQuicPacket"):
+        c = tree.cls("quic.quic_packet", cn)
+        for attr in read:
+            r.instances += 1
+            ok = False
+            for k in c.mro():
+                init = k.methods.get("__init__")
+                if init is None:
+                    continue
+                cf = cfg_of(init.node)
+                for n in cf.nodes:
+                    if n.kind == "stmt" and isinstance(n.ast, (ast.Assign, ast.AnnAssign)) and any(dotted(t) == f"self.{attr}" for t in (n.ast.targets if isinstance(n.ast, ast.Assign) else [n.ast.target])):
+                        if cf.dominates(n.id, cf.exit):
+                            ok = True
+            r.ob(ok, Finding("A3f", f"quic.quic_packet:{cn}:attr-on-every-path:{attr}",
+                             f"QUICOutputbuilder.build reads `frame.src_packet.{attr}`, but {cn}.__init__ sets it only for some packet types: a frame carried by another kind of "
+                             f"packet (Version Negotiation, Retry) raises AttributeError in the builder and the whole connection is missing from the export", qp.relpath))
     return r
 
 
